@@ -473,7 +473,7 @@ def drive_stage(chk, quick, seed):
             for ci, (kind, cat, kind2, cat2, rkind, rcat) in enumerate(CONFIGS[:2] if quick else CONFIGS):
                 notes = {}
                 traces = [drive((kind, kind2), (cats[cat], cats[cat2]), rkind, cats[rcat], rng, rng.choice([3, 5, 8]), 10 if quick else 14, tmp, f"d{ci}_{k}", notes)
-                          for k in range(10 if quick else 120)]
+                          for k in range(25 if quick else 120)]
                 for k_, v_ in notes.items():
                     chk.notes[k_] = chk.notes.get(k_, 0) + v_
                 wd = scratch("world-trace")
